@@ -43,14 +43,14 @@ def classify_js(mech, case, got, ref):
     return common.classify_known_js(mech, case, got, ref)
 
 
-def gen_numeric_table(rng):
+def gen_numeric_table(rng, big=True):
     nrows = rng.choice([0, 1, 2, 3, 4, 5, 6, 8, 12]) if rng.random() < 0.9 else rng.randrange(12, 40)
     nkeys = rng.choice([1, 1, 2])
     nvals = rng.choice([1, 2, 3])
     kvals = [rng.sample(KEYS, rng.randrange(1, 6)) for _ in range(nkeys)]
     # numeric strings (what CSV sources deliver) and, in a quarter of the columns, native numbers (what list / pandas / sqlite sources deliver)
-    kinds = [rng.choice(['int', 'int', 'float', 'mixed', 'zeros', 'int', 'float', 'mixed', 'zeros', 'nint', 'nfloat', 'nmixed']) for _ in range(nvals)]
-    if rng.random() < 0.06:
+    kinds = [rng.choice(['int', 'int', 'float', 'mixed', 'zeros', 'int', 'float', 'mixed', 'zeros', 'nint', 'nfloat', 'nmixed', 'fancy']) for _ in range(nvals)]
+    if big and rng.random() < 0.06:
         kinds[rng.randrange(nvals)] = rng.choice(['bigint', 'nbigint'])
     A = []
     for r in range(nrows):
@@ -62,6 +62,9 @@ def gen_numeric_table(rng):
                 rec.append(rng.choice(FLOATS))
             elif kd == 'zeros':
                 rec.append(rng.choice(['0', '0', '0', '5', '-5']))
+            elif kd == 'fancy':
+                # numeric strings in the other spellings both host languages accept: exponents, bare leading / trailing dot, explicit sign, padding, leading zeros
+                rec.append(rng.choice(['1e3', '5E-1', '.5', '-.25', '+5', ' 7 ', '1.', '-0', '00012', '2.50', '1e-2', '+.5e1']))
             elif kd == 'bigint':
                 rec.append(rng.choice(BIG_INTS))
             elif kd == 'nbigint':
@@ -156,9 +159,10 @@ def gen_case(rng, i, neutral_only=False):
 
 def gen_builtin_case(rng):
     """lower-case min / max / sum with several arguments or an iterable keep their Python builtin meaning (non-aggregate query)."""
-    A, nkeys, nvals = gen_numeric_table(rng)
+    # no integers beyond 2**53 here: the operands are converted with float() and summed in an order that a set does not fix
+    A, nkeys, nvals = gen_numeric_table(rng, big=False)
     while not A:
-        A, nkeys, nvals = gen_numeric_table(rng)
+        A, nkeys, nvals = gen_numeric_table(rng, big=False)
     vj = nkeys
     f = lambda j: ['float_of', ['field', 'a', j, 'var']]
     other = nkeys + (1 if nvals > 1 else 0)
